@@ -1,0 +1,105 @@
+// Verification hooks (cargo feature `verif`, off by default).
+//
+// Nothing in here is compiled unless the feature is enabled. The hooks are
+// process-global callback slots which are no-ops until a callback is installed,
+// plus read-only accessors for crate-private state that external monitors
+// need to observe.
+
+#![allow(missing_docs, clippy::missing_panics_doc, clippy::expect_used)]
+
+use crate::{BlobFile, BlobIndirection, SeqNo};
+use std::{
+    path::Path,
+    sync::{Arc, RwLock},
+    time::Duration,
+};
+
+pub use crate::blob_tree::{FragmentationEntry, FragmentationMap};
+pub use crate::compaction::state::CompactionState;
+pub use crate::version::{SuperVersion, SuperVersions, Version};
+
+type SchedFn = Arc<dyn Fn(&'static str) + Send + Sync>;
+type InstallFn = Arc<dyn Fn(&Path, &SuperVersions) + Send + Sync>;
+type NowFn = Arc<dyn Fn() -> Option<Duration> + Send + Sync>;
+
+static SCHED: RwLock<Option<SchedFn>> = RwLock::new(None);
+static INSTALLED: RwLock<Option<InstallFn>> = RwLock::new(None);
+static NOW: RwLock<Option<NowFn>> = RwLock::new(None);
+
+/// Installs (or removes) the scheduling-point callback.
+pub fn set_sched_hook(f: Option<SchedFn>) {
+    *SCHED.write().expect("lock is poisoned") = f;
+}
+
+/// Installs (or removes) the version-installed callback.
+pub fn set_version_installed_hook(f: Option<InstallFn>) {
+    *INSTALLED.write().expect("lock is poisoned") = f;
+}
+
+/// Installs (or removes) the clock override.
+pub fn set_now_hook(f: Option<NowFn>) {
+    *NOW.write().expect("lock is poisoned") = f;
+}
+
+/// Scheduling point; called by the crate at critical-section boundaries.
+#[inline]
+pub fn sched(site: &'static str) {
+    let f = SCHED.read().expect("lock is poisoned").clone();
+    if let Some(f) = f {
+        f(site);
+    }
+}
+
+/// Called under the version history write lock right after a new version became readable.
+#[inline]
+pub fn version_installed(tree_path: &Path, versions: &SuperVersions) {
+    let f = INSTALLED.read().expect("lock is poisoned").clone();
+    if let Some(f) = f {
+        f(tree_path, versions);
+    }
+}
+
+/// Clock override consulted by `time::unix_timestamp`.
+#[inline]
+pub fn now_override() -> Option<Duration> {
+    let f = NOW.read().expect("lock is poisoned").clone();
+    f.and_then(|f| f())
+}
+
+/// (version, seqno, sealed memtable ids, active memtable id) of a super version.
+#[must_use]
+pub fn super_version_parts(sv: &SuperVersion) -> (Version, SeqNo, Vec<u64>, u64) {
+    (
+        sv.version.clone(),
+        sv.seqno,
+        sv.sealed_memtables.iter().map(|m| m.id).collect(),
+        sv.active_memtable.id,
+    )
+}
+
+/// (item count, on-disk value bytes, uncompressed value bytes) of a blob file.
+#[must_use]
+pub fn blob_file_meta(bf: &BlobFile) -> (u64, u64, u64) {
+    (
+        bf.0.meta.item_count,
+        bf.0.meta.total_compressed_bytes,
+        bf.0.meta.total_uncompressed_bytes,
+    )
+}
+
+/// (len, bytes, on-disk bytes) of a fragmentation entry.
+#[must_use]
+pub fn frag_entry_parts(e: &FragmentationEntry) -> (usize, u64, u64) {
+    (e.len, e.bytes, e.on_disk_bytes)
+}
+
+/// (blob file id, offset, on-disk size, value size) of a blob indirection.
+#[must_use]
+pub fn indirection_parts(i: &BlobIndirection) -> (u64, u64, u32, u32) {
+    (
+        i.vhandle.blob_file_id,
+        i.vhandle.offset,
+        i.vhandle.on_disk_size,
+        i.size,
+    )
+}
